@@ -32,7 +32,7 @@ def run(prop, tier, seed, parts, extra=None):
               driver_stats=stats)
     if extra and ok:
         extra(v, drv, d, tier, seed)
-    v.assumptions += ["component level: the real router / reverse proxy / muxer objects of pkg/util/vhost and pkg/util/tcpmux are driven directly (no frps around them)",
+    v.assumptions += [("component level" if not (extra and prop == "C06") else "component level for the routing rule (the route tables of a real frps are compared with its live proxies in the service-level part)") + ": the real router / reverse proxy / muxer objects of pkg/util/vhost and pkg/util/tcpmux are driven directly (no frps around them)",
                       "h2c is not driven by this check" + ("" if extra else "; the client-side plugins (http_proxy, socks5, static_file) and web APIs are driven by C07's check")]
     v.finish()
 
@@ -45,7 +45,10 @@ def replay(prop, path):
         v.sample({"replayed": str(path)})
         v.finish()
         return
-    sc.validate(v, "Trace_Routes", (vlib.SPEC / "Trace_Routes.cfg").read_text(), path, "replay")
+    if any(e.get("ev", "").startswith("lc.") for e in vlib.read_ndjson(path)):
+        sc.validate(v, "Trace_FrpsLifecycle", (vlib.SPEC / "Trace_FrpsLifecycle.cfg").read_text(), path, "replay")
+    else:
+        sc.validate(v, "Trace_Routes", (vlib.SPEC / "Trace_Routes.cfg").read_text(), path, "replay")
     v.add_cov(states=1, transitions=1)
     v.sample({"replayed": str(path)})
     v.finish()
